@@ -71,6 +71,22 @@ func c10Scenarios(tier string) []Scenario {
 				}
 			}
 		}
+		// (1b) reply sizes: one caller, one qualifying reply of every size a sender may legitimately use, up to the
+		// 1500 bytes the clients announce/receive (a reply that exactly fills the receive buffer is still complete)
+		sizes := []int{576, 1024, 1400, 1498, 1499, 1500}
+		if thorough {
+			sizes = nil
+			for n := 400; n <= 1500; n++ {
+				sizes = append(sizes, n)
+			}
+		}
+		for _, n := range sizes {
+			for _, lead := range [][]DgSpec{nil, {{Kind: DgBad, ID: 0, At: 1, Size: n}}} {
+				d := append(append([]DgSpec{}, lead...), DgSpec{Kind: DgGood, ID: 0, At: 1, Size: n})
+				add(&ClientScenario{V6: v6, T: T, Tries: 1, BufCap: 1, CloseAt: -1, Bound: 1,
+					Calls: []CallSpec{{ID: 0, Match: MatchGood, CancelAt: -1, After: -1}}, Dgs: d}, "reply-sizes")
+			}
+		}
 		// (2) two callers, distinct ids: streams over replies for both ids
 		alpha2 := []DgSpec{{Kind: DgGood, ID: 0}, {Kind: DgBad, ID: 0}, {Kind: DgGood, ID: 1}, {Kind: DgBad, ID: 1}, {Kind: DgGarbage}}
 		for _, seq := range dgSequences(alpha2, seqLen) {
